@@ -165,6 +165,17 @@ PROPS = {
         text="Rendering must equal the integer floor, match the grammar, be read back to that instant, be reproduced byte for byte by a second write and be monotone; the thorough tier enumerates the whole millisecond domain of a day for the four text formats and every frame boundary for STL.",
         note="Trusted: the harness's regular expressions for the timing fields and its integer arithmetic.",
         design="5/C16", exhaustive_note=True),
+    "C17": P(
+        "TestC17", "exploration",
+        "case = (format, document bytes, delivery schedule = list of chunk sizes incl. zero-length reads, data-together-with-EOF flag, seekable flag for the transport-stream reader, reader options). Documents: the repository's test inputs, documents rendered from the C01-C06 models, CRLF-converted and truncated variants; random cases also cut / bit-flip them (invalid documents). "
+        "Schedules: every single split point of every document <= 4-6 KiB (exhaustive, every 7th also with data+EOF), one-byte reads, halves, zero-length reads, 150 KB CRLF documents split at 4096/8192/65536/131072 +-2 and read in chunks of 4090..4100 bytes, random chunk lists drawn from sizes around 1, 128, 188, 1024, 4096. "
+        "Oracle: canonical dump of (result | ERROR | PANIC) equals the dump under the all-at-once schedule. Non-trivial = the split falls inside a CR LF pair, a multi-byte rune, an XML document, a 128/1024-byte block or a 188-byte packet (splits), every one-byte/buffer-boundary/random schedule on a non-empty document; distinct = hash of (document, schedule).",
+        ["at most 3 consecutive zero-length reads (io.Reader discourages them; bufio gives up after 100)",
+         "non-seekable transport-stream readers are compared with a non-seekable reference (the demultiplexer legitimately skips the packets it used for packet-size detection when it cannot rewind)"],
+        shards=(6, 16), technique="differential testing over generated delivery schedules: harness-controlled io.Reader wrappers, exhaustive single-split enumeration, result compared with the reference schedule through a canonical pointer-following dump",
+        text="Every split point of the listed documents is enumerated (complete for those documents), plus buffer-boundary schedules on large CRLF documents and random schedules over valid and invalid documents of all six readers.",
+        note="Trusted: the schedule reader (30 lines) and the canonical dumper.",
+        design="5/C17", exhaustive_note=True),
 }
 
 # Properties deliberately not claimed (reason each); anything else missing from PROPS is work in progress.
